@@ -7,6 +7,7 @@ import (
 	"encoding/hex"
 	"encoding/json"
 	"fmt"
+	"slices"
 
 	"github.com/doug-martin/goqu/v9"
 	_ "github.com/doug-martin/goqu/v9/dialect/sqlite3"
@@ -21,6 +22,11 @@ func queryEvent(
 	fs []*mocrelay.ReqFilter,
 	maxLimit uint,
 ) (events []*mocrelay.Event, err error) {
+	// a filter with limit 0 asks for no event (goqu's Limit(0) would remove the limit instead)
+	fs = slices.DeleteFunc(slices.Clone(fs), func(f *mocrelay.ReqFilter) bool {
+		return f.Limit != nil && *f.Limit == 0
+	})
+
 	if len(fs) == 0 {
 		// no filter selects nothing (an empty "or" would drop the where clause)
 		return nil, nil
